@@ -25,10 +25,6 @@ Definition emb_mapping (off k N : Z) (symbreak : bool) : list ir :=
   um_complete off k N ++ um_functional off k N ++ um_injective off k N
   ++ (if symbreak then um_nondecreasing off k N else []).
 
-Definition pair_mk (off N : Z) (symbreak : bool) (i1 i2 j1 j2 : Z) : list ir :=
-  IClause [- mvar off N i1 j1; - mvar off N i2 j2]
-  :: (if symbreak then [] else [IClause [- mvar off N i1 j2; - mvar off N i2 j1]]).
-
 (* ---- SubgraphFormula ---- *)
 Definition subgraph_bad (EG EH : list (Z * Z)) (induced : bool) (i1 i2 j1 j2 : Z) : bool :=
   let gedge := has_edge EG j1 j2 in
